@@ -792,6 +792,11 @@ func (r *c19Run) group(w *c19World, worldIdx, groupIdx int, spec string) {
 			prefix = "/upload/"
 			// every fourth group uploads something that is not a capture (first or second upload)
 			body, valid = c19Body(serial, (groupIdx%4 == 1 && step == 1) || (groupIdx%4 == 2 && step == 3))
+			if groupIdx%8 == 7 && step == 1 {
+				// every eighth group: the first upload has an empty body (a stored file of size 0 is a stored
+				// file: the second upload of the name must be refused like any other)
+				body, valid = []byte{}, false
+			}
 		}
 		head := c19Raw(method, prefix+target, len(body))
 		line := fmt.Sprintf("%s %s%s", method, prefix, c19Abbrev(spec))
@@ -1014,7 +1019,10 @@ func c19Merges(lists [][]c19Step) [][]c19Step {
 }
 
 type c19Trace struct {
-	kind  string
+	// headersFirst: the first step of an upload sends the request head only; the server has accepted the
+	// request (and created the file) while not a single body byte has arrived
+	headersFirst bool
+	kind         string
 	reqs  []string // descriptions: "upload", "upload-abort", "download"
 	steps []c19Step
 }
@@ -1032,16 +1040,22 @@ func c19Traces(chunks int) []c19Trace {
 	}
 	var out []c19Trace
 	for _, m := range c19Merges([][]c19Step{stepsOf(0, false), stepsOf(1, false)}) {
-		out = append(out, c19Trace{"upload-upload", []string{"upload", "upload"}, m})
+		out = append(out, c19Trace{false, "upload-upload", []string{"upload", "upload"}, m})
 	}
 	for _, m := range c19Merges([][]c19Step{stepsOf(0, true), stepsOf(1, false)}) {
-		out = append(out, c19Trace{"abort-upload", []string{"upload-abort", "upload"}, m})
+		out = append(out, c19Trace{false, "abort-upload", []string{"upload-abort", "upload"}, m})
 	}
 	for _, m := range c19Merges([][]c19Step{stepsOf(0, false), {{1, "whole"}}}) {
-		out = append(out, c19Trace{"upload-download", []string{"upload", "download"}, m})
+		out = append(out, c19Trace{false, "upload-download", []string{"upload", "download"}, m})
 	}
 	for _, m := range c19Merges([][]c19Step{stepsOf(0, false), {{1, "whole"}}, {{2, "whole"}}}) {
-		out = append(out, c19Trace{"upload-dup-download", []string{"upload", "upload-whole", "download"}, m})
+		out = append(out, c19Trace{false, "upload-dup-download", []string{"upload", "upload-whole", "download"}, m})
+	}
+	for _, m := range c19Merges([][]c19Step{stepsOf(0, false), stepsOf(1, false)}) {
+		out = append(out, c19Trace{true, "upload-upload (request head first)", []string{"upload", "upload"}, m})
+	}
+	for _, m := range c19Merges([][]c19Step{stepsOf(0, false), {{1, "whole"}}, {{2, "whole"}}}) {
+		out = append(out, c19Trace{true, "upload-dup-download (request head first)", []string{"upload", "upload-whole", "download"}, m})
 	}
 	return out
 }
@@ -1110,6 +1124,9 @@ func (r *c19Run) trace(traceIdx int, tr c19Trace, chunks int) {
 			q.body = c19Pcap(100+i, strings.Repeat(q.name, 40*(i+1)))
 			q.head = c19Raw("POST", "/upload/"+name, len(q.body))
 			q.chunks = c19Split(q.body, chunks)
+			if tr.headersFirst && chunks > 1 {
+				q.chunks = append([][]byte{nil}, c19Split(q.body, chunks-1)...)
+			}
 			q.abort = kind == "upload-abort"
 			if kind == "upload-whole" {
 				q.chunks = [][]byte{q.body}
